@@ -28,6 +28,8 @@ pub trait SemFlavor: 'static {
     fn snapshot(s: &Self::Sem) -> Snapshot;
     fn node(f: &Self::Fut) -> NodeSnap;
     fn disarm(r: &mut Self::Rel) -> usize;
+    fn debug(s: &Self::Sem) -> String;
+    fn node_debug(f: &Self::Fut) -> String;
 }
 
 pub struct Borrowed<M>(PhantomData<M>);
@@ -63,6 +65,12 @@ impl<M: RawMutex + 'static> SemFlavor for Borrowed<M> {
     fn disarm(r: &mut Self::Rel) -> usize {
         r.disarm()
     }
+    fn debug(s: &Self::Sem) -> String {
+        s.verif_debug()
+    }
+    fn node_debug(f: &Self::Fut) -> String {
+        f.verif_node_debug()
+    }
 }
 
 impl<M: RawMutex + 'static> SemFlavor for Shared<M> {
@@ -92,6 +100,12 @@ impl<M: RawMutex + 'static> SemFlavor for Shared<M> {
     }
     fn disarm(r: &mut Self::Rel) -> usize {
         r.disarm()
+    }
+    fn debug(s: &Self::Sem) -> String {
+        s.verif_debug()
+    }
+    fn node_debug(f: &Self::Fut) -> String {
+        f.verif_node_debug()
     }
 }
 
@@ -465,6 +479,7 @@ impl<F: SemFlavor> System for Sys<F> {
                         r.push(structcheck::waker_code(n.waker, G, i));
                         r.push(snap.queues[0].iter().position(|q| q.addr == n.addr).map_or(200, |p| p as u8));
                         r.push(s.fut.get().is_terminated() as u8);
+                        r.extend(harness::norm(&F::node_debug(s.fut.get())));
                     } else {
                         r.extend([8, 8, 8, 8]);
                     }
@@ -484,6 +499,7 @@ impl<F: SemFlavor> System for Sys<F> {
             v.push(253);
         }
         v.push(254);
+        v.extend(harness::norm(&F::debug(&self.sem)));
         v.push(snap.queues[0].len() as u8);
         let mut rr: Vec<(u8, u8)> = self.rels.iter().map(|r| (r.1 as u8, r.2 as u8)).collect();
         rr.sort();
